@@ -599,13 +599,17 @@ func init() {
 	}})
 	// An operation that allocates an index block and then fails for lack of a second block must give the first one
 	// back everywhere (allocator, cached inode); the number must not stay in the cached inode and reach the disk later.
-	for _, variant := range []string{"write", "read"} {
+	for _, variant := range []string{"write", "read", "writespan"} {
 		variant := variant
 		Probes = append(Probes, Probe{"indirect-" + variant + "-with-one-block-free", []string{"C04", "C05", "C09", "C10"}, 1700, func(p *P) {
 			g := p.Create(p.Root, "g").RFh // no indirect block yet
 			p.Write(g, 0, 100, 2)
 			if variant == "read" {
 				p.Trunc(g, 20*4096) // sparse: reading a hole maps a block
+			}
+			if variant == "writespan" { // blocks 0..7 mapped, the size covers a hole in the indirect range
+				p.Write(g, 0, 8*4096, 2)
+				p.Trunc(g, 20*4096)
 			}
 			filler := p.Create(p.Root, "filler").RFh
 			off := 0
@@ -623,6 +627,8 @@ func init() {
 			}
 			if variant == "read" {
 				p.Read(g, 8*4096, 100)
+			} else if variant == "writespan" {
+				p.Write(g, 7*4096, 2*4096, 2) // starts in a mapped block and runs into the hole: short write
 			} else {
 				p.Write(g, 8*4096, 100, 2) // needs the index block and a data block: fails
 			}
